@@ -68,7 +68,7 @@ def run_case(case, coop_cycles=0, endless=False):
     sink_mon = bench.Probe([dut.sink.valid, dut.sink.ready])
     quiet = {"n": 0, "last_got": 0, "last_sent": 0}
     slow = getattr(e, "slow", None)
-    per_tok = slow(p) if slow else 8
+    per_tok = (slow(p) if slow else 8) * (2 if case.get("wv") else 1)     # a consumer that answers valid takes two cycles per token
     total_limit = main + per_tok * n + 4 * B + 64 + coop_cycles
 
     state = {"phase2_start": None}
